@@ -1826,6 +1826,69 @@ fn name_collision(_seed: u64) -> serde_json::Value {
     json!({"found": false, "routine": "name_collision", "tried": tried})
 }
 
+// C12: a systematic sweep of single corruptions of a serialized context (every number -> 0 / 99, every array reversed / truncated / first element
+// duplicated, every bool flipped, every non-null leaf -> null): loading must not panic, and what loads must be well-formed
+// (a graph that rejects new nodes - i.e. is finalized - has an output node; a finalized context has a main graph and only finalized graphs; it re-serializes and loads again)
+fn ctx_corrupt_sweep(_seed: u64) -> serde_json::Value {
+    use ciphercore_base::graphs::{Context, NodeAnnotation};
+    let base = || -> Result<Context> {
+        let c = create_context()?;
+        let h = c.create_graph()?; { let x = h.input(scalar_type(INT32))?; x.set_name("hx")?; let y = x.add(x.clone())?; y.add_annotation(NodeAnnotation::Send(0, 1))?; y.set_as_output()?; h.finalize()?; h.set_name("helper")?; }
+        let g = c.create_graph()?; { let a = g.input(array_type(vec![2], INT32))?; a.set_name("a")?; let k = g.constant(scalar_type(INT32), Value::from_scalar(3, INT32)?)?; let r = g.call(h.clone(), vec![k])?; r.set_name("r")?;
+            let o = a.add(r)?; o.add_annotation(NodeAnnotation::Send(1, 2))?; o.set_as_output()?; g.finalize()?; g.set_name("main")?; g.set_as_main()?; }
+        c.finalize()?; Ok(c)
+    };
+    let c = match base() { Ok(c) => c, Err(e) => return json!({"found": false, "error": e.to_string()}) };
+    let outer: serde_json::Value = serde_json::from_str(&serde_json::to_string(&c).unwrap()).unwrap();
+    let ver = outer["version"].as_u64().unwrap();
+    let inner: serde_json::Value = serde_json::from_str(outer["data"].as_str().unwrap()).unwrap();
+    fn paths(v: &serde_json::Value, cur: &mut Vec<String>, out: &mut Vec<Vec<String>>) {
+        out.push(cur.clone());
+        match v { serde_json::Value::Array(a) => for (i, x) in a.iter().enumerate() { cur.push(i.to_string()); paths(x, cur, out); cur.pop(); },
+            serde_json::Value::Object(m) => for (k, x) in m.iter() { cur.push(k.clone()); paths(x, cur, out); cur.pop(); }, _ => {} }
+    }
+    fn at<'a>(v: &'a mut serde_json::Value, p: &[String]) -> &'a mut serde_json::Value { let mut x = v; for k in p { x = if x.is_array() { &mut x[k.parse::<usize>().unwrap()] } else { &mut x[k.as_str()] }; } x }
+    let mut ps = vec![]; paths(&inner, &mut vec![], &mut ps);
+    let mut cands: Vec<(String, String)> = vec![];
+    for p in ps.iter() {
+        let mut probe = inner.clone(); let leaf = at(&mut probe, p).clone();
+        let mut muts: Vec<(&str, serde_json::Value)> = vec![];
+        match &leaf {
+            serde_json::Value::Number(_) => { muts.push(("-> 99", json!(99))); muts.push(("-> 0", json!(0))); muts.push(("-> 1", json!(1))); }
+            serde_json::Value::Bool(b) => muts.push(("flipped", json!(!b))),
+            serde_json::Value::Array(a) if !a.is_empty() => { let mut r = a.clone(); r.reverse(); if a.len() > 1 { muts.push(("reversed", json!(r))); } muts.push(("last dropped", json!(a[..a.len() - 1].to_vec())));
+                let mut d = a.clone(); d.insert(0, a[a.len() - 1].clone()); muts.push(("last element also first", json!(d))); }
+            _ => {}
+        }
+        if !leaf.is_null() { muts.push(("-> null", serde_json::Value::Null)); }
+        for (what, val) in muts { let mut m = inner.clone(); *at(&mut m, p) = val; cands.push((format!("/{} {}", p.join("/"), what), m.to_string())); }
+    }
+    let mut tried = 0u64;
+    for (what, text) in cands {
+        tried += 1;
+        let outer_text = json!({"version": ver, "data": text}).to_string();
+        let r = catch_unwind(AssertUnwindSafe(|| -> std::result::Result<(), String> {
+            let c2 = match serde_json::from_str::<Context>(&outer_text) { Ok(c2) => c2, Err(_) => return Ok(()) };
+            let again = serde_json::to_string(&c2).map_err(|e| format!("the loaded context does not serialize: {}", e))?;
+            let c3 = serde_json::from_str::<Context>(&again).map_err(|e| format!("the loaded context does not load again after serialization: {}", e))?;
+            if !ciphercore_base::graphs::contexts_deep_equal(&c2, &c3) { return Err("the loaded context is not equal to its own round trip".to_owned()); }
+            let ctx_final = c2.check_finalized().is_ok();
+            if ctx_final && c2.get_main_graph().is_err() { return Err("the loaded context is finalized but has no main graph".to_owned()); }
+            for g in c2.get_graphs() {
+                let has_out = g.get_output_node().is_ok();
+                let rejects = g.input(scalar_type(BIT)).is_err();        // a finalized graph rejects every mutation
+                if rejects && !has_out { return Err(format!("graph {} of the loaded context is finalized but has no output node", g.get_id())); }
+                if ctx_final && !rejects { return Err(format!("the loaded context is finalized but its graph {} is not", g.get_id())); }
+            }
+            Ok(())
+        }));
+        let obs = match r { Ok(Ok(())) => continue, Ok(Err(m)) => m, Err(_) => "panic".to_owned() };
+        return json!({"found": true, "routine": "ctx_corrupt_sweep", "property": "C12", "input": {"corruption": what, "version": ver, "data": text.chars().take(400).collect::<String>()},
+            "expected": "Err(..), or a well-formed context", "observed": obs, "what": "serde_json::from_str::<Context> on a serialized two-graph context with one field corrupted"});
+    }
+    json!({"found": false, "routine": "ctx_corrupt_sweep", "tried": tried})
+}
+
 fn main() {
     let args: Vec<String> = std::env::args().collect();
     let seed: u64 = args.get(2).and_then(|s| s.parse().ok()).unwrap_or(0);
@@ -1846,6 +1909,7 @@ fn main() {
         Some("share_roundtrip") => share_roundtrip(seed),
         Some("prng_stream") => prng_stream(seed),
         Some("layout_ref") => layout_ref(seed),
+        Some("ctx_corrupt_sweep") => ctx_corrupt_sweep(seed),
         Some("name_collision") => name_collision(seed),
         Some("matmul_ref") => matmul_ref(seed),
         Some("optimizer_equiv") => optimizer_equiv(seed),
